@@ -3,6 +3,7 @@
 package checks
 
 import (
+	"bufio"
 	"context"
 	"errors"
 	"fmt"
@@ -14,6 +15,7 @@ import (
 
 	"github.com/gorilla/mux"
 	"github.com/inbucket/inbucket/v3/pkg/config"
+	"github.com/inbucket/inbucket/v3/pkg/extension"
 	"github.com/inbucket/inbucket/v3/pkg/server"
 	"github.com/inbucket/inbucket/v3/pkg/server/web"
 	"github.com/inbucket/inbucket/v3/pkg/storage"
@@ -22,6 +24,7 @@ import (
 	"github.com/inbucket/inbucket/v3/pkg/vrt/vsched"
 
 	"verif/fw"
+	"verif/sys"
 )
 
 // C19, the assembled server (pkg/server/lifecycle.go): server.FullAssembly builds the services
@@ -43,6 +46,8 @@ func c19LifeScenarios(c *fw.Ctx) []schedScenario {
 		c19LifeScenario(c, "G14-assembled-services-shutdown-during-pop3-start-up", "", "pop3"),
 		c19LifeScenario(c, "G15-assembled-services-shutdown-during-web-start-up", "", "web"),
 		c19LifeScenario(c, "G16-assembled-services-pop3-fails-to-bind", "pop3", "smtp"),
+		c19LifeSessionScenario(c, "G17-assembled-services-smtp-transfer-in-progress", "smtp"),
+		c19LifeSessionScenario(c, "G18-assembled-services-pop3-deletion-pending", "pop3"),
 	}
 }
 
@@ -208,6 +213,235 @@ func c19LifeScenario(c *fw.Ctx, id, failBind, focus string) schedScenario {
 		}
 		sort.Strings(names)
 		res.Outcome = fmt.Sprintf("at-shutdown-request[%s] finally[opened=%v ready=%v drained=%v]", atCancel, names, readyFired, drained)
+		return res
+	}
+	return schedScenario{ID: id, Bound: fw.Pick(c, 1, 2), Run: run}
+}
+
+// c19LifeSessionScenario - the assembled services (memory store with a size limit, so that the
+// store has a background goroutine of its own) are up and a session is in the middle of its
+// dialogue - an SMTP transfer after 354, or a POP3 session with one deletion pending - when
+// shutdown is requested at any point of the rest of the dialogue, followed by main's drain
+// sequence.  The session must complete (250 and the message stored / the deletion applied), the
+// drain calls return, and only after the session has ended.  Explored: the session's server
+// side, the client, the signal and main; everything else (the other services, hub, scanner,
+// the store's own goroutine) runs eagerly.
+func c19LifeSessionScenario(c *fw.Ctx, id, proto string) schedScenario {
+	run := func(cfg vsched.Config) (res schedResult) {
+		var e *vsched.Exec
+		var mu sync.Mutex
+		opened := map[string]*vnet.MemListener{}
+		var finalProbs [][2]string
+		var assembleErr error
+		var replies []string
+		broke := ""
+		var completedAt, drainedAt, requestedAt int64 = -1, -1, -1
+		var store storage.Store
+		// Services.Start runs in the initialisation phase: its goroutines are children of "I"
+		cfg.Eager = []string{"R"}
+		for i, n := range c19LifeChildren {
+			if n != proto {
+				cfg.Eager = append(cfg.Eager, fmt.Sprintf("I.%d", i+1))
+			}
+		}
+		leaked := inBubble(c.T, func() {
+			e = vsched.Run(cfg, func() (func(), []vsched.Thread, func()) {
+				storage.Constructors["memory"] = func(cf config.Storage, eh *extension.Host) (storage.Store, error) {
+					st, err := mem.New(cf, eh)
+					store = st
+					return st, err
+				}
+				web.Router = mux.NewRouter().UseEncodedPath()
+				conf := &config.Root{
+					MailboxNaming: config.LocalNaming,
+					SMTP: config.SMTP{Addr: "127.0.0.1:2500", Domain: "verif.test", MaxRecipients: 200, MaxMessageBytes: 10240000,
+						DefaultAccept: true, DefaultStore: true, Timeout: 300 * time.Second},
+					POP3: config.POP3{Addr: "127.0.0.1:1100", Domain: "verif.test", Timeout: 600 * time.Second},
+					Web:  config.Web{Addr: "127.0.0.1:9000", UIDir: "/nonexistent", MonitorHistory: 5},
+					Storage: config.Storage{Type: "memory", RetentionPeriod: 24 * time.Hour, RetentionSleep: 0,
+						Params: map[string]string{"maxkb": "100"}},
+				}
+				vnet.FakeErr = nil
+				vnet.Fake = func(addr string) net.Listener {
+					name := "web"
+					switch {
+					case strings.HasSuffix(addr, ":2500"):
+						name = "smtp"
+					case strings.HasSuffix(addr, ":1100"):
+						name = "pop3"
+					}
+					l := vnet.NewMemListener()
+					mu.Lock()
+					opened[name] = l
+					mu.Unlock()
+					return l
+				}
+				svcs, err := server.FullAssembly(conf)
+				if err != nil {
+					assembleErr = err
+					return nil, nil, func() {}
+				}
+				ctx, cancel := context.WithCancel(context.Background())
+				requested := make(chan struct{})
+				ready := make(chan struct{})
+				var conn net.Conn
+				var rd *bufio.Reader
+				say := func(line string) bool {
+					if _, err := fmt.Fprintf(conn, "%s\r\n", line); err != nil {
+						broke = "write failed before " + strings.Fields(line)[0]
+						return false
+					}
+					l, err := rd.ReadString('\n')
+					if err != nil {
+						broke = "connection closed instead of a reply to " + strings.Fields(line)[0]
+						return false
+					}
+					replies = append(replies, strings.TrimSpace(l))
+					return true
+				}
+				var prelude, rest []string
+				if proto == "smtp" {
+					prelude = []string{"HELO c", "MAIL FROM:<s@o.test>", "RCPT TO:<r@x.test>", "DATA"}
+					rest = []string{"Subject: g\r\n\r\nbody\r\n.", "QUIT"}
+				} else {
+					prelude = []string{"USER u", "PASS p", "DELE 1"}
+					rest = []string{"QUIT"}
+				}
+				preludeOK := false
+				init := func() {
+					if store != nil {
+						_, _ = store.AddMessage(sys.Delivery("u", "f@x.test", []string{"u@x.test"}, "old", "Subject: old\r\n\r\nold\r\n", time.Now()))
+					}
+					svcs.Start(ctx, func() { close(ready) })
+					<-ready
+					var err error
+					conn, err = opened[proto].Dial()
+					if err != nil {
+						broke = "dial refused before any shutdown request"
+						return
+					}
+					rd = bufio.NewReader(conn)
+					l, err := rd.ReadString('\n')
+					if err != nil {
+						broke = "no greeting"
+						return
+					}
+					replies = append(replies, strings.TrimSpace(l))
+					for _, line := range prelude {
+						if !say(line) {
+							return
+						}
+					}
+					preludeOK = true
+				}
+				ths := []vsched.Thread{
+					{Name: "client-rest", F: func() {
+						if !preludeOK {
+							return
+						}
+						defer conn.Close()
+						for _, line := range rest {
+							vsched.Point("client: about to send " + strings.Fields(line)[0])
+							if !say(line) {
+								return
+							}
+						}
+						mu.Lock()
+						completedAt = vsched.StepNo()
+						mu.Unlock()
+					}},
+					{Name: "signal", F: func() {
+						vsched.Point("signal: about to request shutdown")
+						mu.Lock()
+						requestedAt = vsched.StepNo()
+						mu.Unlock()
+						cancel()
+						close(requested)
+					}},
+					{Name: "main-shutdown", F: func() {
+						<-requested
+						svcs.SMTPServer.Drain()
+						svcs.POP3Server.Drain()
+						svcs.RetentionScanner.Join()
+						mu.Lock()
+						drainedAt = vsched.StepNo()
+						mu.Unlock()
+					}},
+				}
+				cleanup := func() {
+					safely(func() {
+						mu.Lock()
+						defer mu.Unlock()
+						if !preludeOK {
+							finalProbs = append(finalProbs, [2]string{"session-refused-before-shutdown", "before any shutdown request: " + broke + fmt.Sprintf("; replies %v", replies)})
+							return
+						}
+						if completedAt < 0 {
+							finalProbs = append(finalProbs, [2]string{"open-session-cut|" + proto, fmt.Sprintf("the %s session was in the middle of its dialogue when shutdown was requested, and did not complete it: %s; replies so far %v", proto, broke, replies)})
+							return
+						}
+						if proto == "smtp" {
+							ms, _ := store.GetMessages("r")
+							n := len(replies)
+							if n != 7 || !strings.HasPrefix(replies[5], "250") || !strings.HasPrefix(replies[6], "221") || len(ms) != 1 {
+								finalProbs = append(finalProbs, [2]string{"in-flight-mail-lost", fmt.Sprintf("the message transfer was in progress during shutdown: replies %v, mailbox r holds %d messages", replies, len(ms))})
+							}
+						} else {
+							ms, _ := store.GetMessages("u")
+							n := len(replies)
+							if n != 5 || !strings.HasPrefix(replies[4], "+OK") || len(ms) != 0 {
+								finalProbs = append(finalProbs, [2]string{"pop3-deletes-not-applied", fmt.Sprintf("message 1 was marked and QUIT sent during shutdown: replies %v, mailbox u still holds %d messages", replies, len(ms))})
+							}
+						}
+						if drainedAt >= 0 && drainedAt < completedAt {
+							finalProbs = append(finalProbs, [2]string{"drain-returned-early|" + proto, fmt.Sprintf("main's drain sequence returned at step %d while the %s session was still in its dialogue (completed at step %d)", drainedAt, proto, completedAt)})
+						}
+						for n, l := range opened {
+							if !l.IsClosed() {
+								finalProbs = append(finalProbs, [2]string{"listener-left-open-after-shutdown|" + n, "the system has gone quiet after the shutdown request and the " + n + " listener is still open"})
+							}
+						}
+					})
+					cancel()
+					if conn != nil {
+						_ = conn.Close()
+					}
+					mu.Lock()
+					for _, l := range opened {
+						_ = l.Close()
+					}
+					mu.Unlock()
+					// releases the goroutine that merges the failure notifications (see G13)
+					vnet.FakeErr = func(string) error { return errors.New("bind: address already in use") }
+					svcs.POP3Server.Start(ctx, func() {})
+					if ms, ok := store.(*mem.Store); ok {
+						ms.VerifStop()
+					}
+				}
+				return init, ths, cleanup
+			})
+			vnet.Fake, vnet.FakeErr = nil, nil
+		})
+		if assembleErr != nil {
+			res.Infra = "FullAssembly: " + assembleErr.Error()
+			return res
+		}
+		if leaked != "" && (e == nil || (len(e.Panics) == 0 && !e.Deadlock && len(finalProbs) == 0)) {
+			res.Infra = "bubble: " + leaked
+			return res
+		}
+		res.Exec = e
+		res.Probs = append(res.Probs, stdProbs(e)...)
+		for i := range res.Probs {
+			if strings.HasPrefix(res.Probs[i][0], "deadlock|") {
+				res.Probs[i][0] = "shutdown-blocks|" + c19BlockClass(e.Blocked)
+				res.Probs[i][1] = fmt.Sprintf("the assembled server's shutdown does not complete: these never return: %s (client replies so far %v)", strings.Join(e.Blocked, ", "), replies)
+			}
+		}
+		if len(res.Probs) == 0 {
+			res.Probs = append(res.Probs, finalProbs...)
+		}
+		res.Outcome = fmt.Sprintf("requested-before-completion=%v drained-after-completion=%v replies=%d", requestedAt >= 0 && (completedAt < 0 || requestedAt < completedAt), drainedAt >= completedAt, len(replies))
 		return res
 	}
 	return schedScenario{ID: id, Bound: fw.Pick(c, 1, 2), Run: run}
